@@ -61,7 +61,9 @@ EntryOK(S, e, multi) ==
 Verdict(r) ==
   IF r.anom # <<>> THEN <<"C15:raised." \o r.anom[1]>> ELSE
   LET S == FromJ(r.st) IN
-  IF ~Integrity(S) THEN <<"tainted">>
+  \* the input was built by the harness through public calls only: if it is not even consistent the
+  \* check cannot vouch for the property on it (and some call broke C01 / C03 on the way)
+  IF ~Integrity(S) THEN <<"C15:input.not-a-consistent-network">>
   ELSE LET bad == SelectSeq([k \in DOMAIN r.obs |-> k], LAMBDA k : ~EntryOK(S, r.obs[k], r.multi))
        IN [k \in DOMAIN bad |-> "C15:" \o r.obs[bad[k]].what]
 
